@@ -119,6 +119,36 @@ def make_cases(rng, src_path, n, outdir, tag):
         with open(p, 'wb') as f:
             f.write(data)
         cases.append((p, region, kind, intact))
+    # damage that keeps every length valid, enumerated per packet type present in the stream: two neighbouring 32-bit fields of a
+    # payload transposed (ids, indices, lengths), a packet repeated, two packets exchanged -- a later occurrence of each type, so that
+    # earlier packets of the same kind have already been applied
+    stream = info.decrypted_data
+    offs = packet_offsets(stream)
+    by_type = {}
+    for k, (o, size) in enumerate(offs):
+        if o + 12 <= len(stream):
+            by_type.setdefault(struct.unpack_from('<I', stream, o + 4)[0], []).append(k)
+    j = 0
+    for ty, ks in sorted(by_type.items()):
+        if len(cases) - n >= 60:
+            break
+        k = ks[min(len(ks) - 1, 1 + rng.randrange(3))]
+        o, size = offs[k]
+        variants = []
+        for a in (0, 4, 8):
+            if size >= a + 8:
+                b = bytearray(stream)
+                b[o + 12 + a:o + 12 + a + 4], b[o + 12 + a + 4:o + 12 + a + 8] = b[o + 12 + a + 4:o + 12 + a + 8], b[o + 12 + a:o + 12 + a + 4]
+                variants.append(('pswap', bytes(b)))
+        pkt = stream[o:o + 12 + size]
+        variants.append(('pdup', stream[:o] + pkt + pkt + stream[o + 12 + size:]))
+        for kind, st in variants[:3 if len(by_type) > 8 else 4]:
+            data = container.write_container(ext, raw[12:12 + struct.unpack('<i', raw[8:12])[0]], [], st, level=1)
+            p = os.path.join(outdir, '%s-t%d.%s' % (tag, j, ext))
+            j += 1
+            with open(p, 'wb') as f:
+                f.write(data)
+            cases.append((p, 'stream', kind, True))
     return cases
 
 
